@@ -490,6 +490,10 @@ func (m *machine) ValidTransition(to *State) error {
 		return newError(fmt.Sprintf("invalid allocation: %v", err))
 	}
 
+	if n := len(m.params.Parts); to.NumParts() != n {
+		return newError(fmt.Sprintf("expected balances for %d participants, got %d", n, to.NumParts()))
+	}
+
 	if err := AssertAssetsEqual(m.currentTX.Assets, to.Assets); err != nil {
 		return newError(fmt.Sprintf("unequal assets: %v", err))
 	}
